@@ -411,3 +411,90 @@ def r_val_auth(E):
                     f"list", rel, r.lineno, fn.name))
     res.floor = 3
     return res
+
+
+MODEL_DIRS = ("efootprint/core/", "efootprint/builders/services/", "efootprint/builders/hardware/boavizta_cloud_server.py")
+
+
+def _mentions(e, name):
+    return any(isinstance(x, ast.Name) and x.id == name for x in ast.walk(e))
+
+
+@rule("R-ACCUM")
+def r_accum(E):
+    pm = E.pm
+    res = RuleResult("R-ACCUM", "accumulator discipline in model code: a value initialised before a loop and used after "
+                                "it is only *added to* inside the loop (never overwritten), and the term added in one "
+                                "iteration does not contain the accumulator itself (that would compound instead of sum)")
+    for mod, (rel, tree, src) in sorted(pm.modules.items()):
+        if not any(rel.startswith(d) for d in MODEL_DIRS):
+            continue
+        for fn in [n for n in ast.walk(tree) if isinstance(n, ast.FunctionDef)]:
+            loops = [n for n in ast.walk(fn) if isinstance(n, ast.For)]
+            for L in loops:
+                # candidate accumulators: names assigned before the loop (in fn) and assigned inside the loop body
+                before = {}
+                for n in ast.walk(fn):
+                    if isinstance(n, ast.Assign) and n.lineno < L.lineno:
+                        for t in n.targets:
+                            if isinstance(t, ast.Name):
+                                before[t.id] = n
+                inside = []
+                for n in ast.walk(L):
+                    if n is L:
+                        continue
+                    if isinstance(n, ast.Assign):
+                        for t in n.targets:
+                            if isinstance(t, ast.Name) and t.id in before:
+                                inside.append((t.id, n))
+                    if isinstance(n, ast.AugAssign) and isinstance(n.target, ast.Name) and n.target.id in before:
+                        inside.append((n.target.id, n))
+                end = max((getattr(x, "end_lineno", L.lineno) or L.lineno) for x in ast.walk(L) if hasattr(x, "lineno"))
+                for v, st in inside:
+                    used_after = any(isinstance(x, ast.Name) and x.id == v and isinstance(x.ctx, ast.Load) and x.lineno > end
+                                     for x in ast.walk(fn))
+                    if not used_after:
+                        continue
+                    # the loop variable itself / names rebound per iteration from the loop target are not accumulators
+                    if _mentions(L.target, v):
+                        continue
+                    # only values: the initialiser is an empty explainable, None, 0, a set/list/dict literal
+                    ini = before[v].value
+                    is_acc = (isinstance(ini, ast.Call) and norm(ini.func) in ("EmptyExplainableObject", "set", "list", "dict")) \
+                        or (isinstance(ini, ast.Constant) and ini.value in (None, 0)) or isinstance(ini, (ast.List, ast.Set, ast.Dict))
+                    if not is_acc:
+                        continue
+                    res.instances += 1
+                    q = fn.name
+                    cls = fn
+                    while cls is not None and not isinstance(cls, ast.ClassDef):
+                        cls = getattr(cls, "_parent", None)
+                    q = f"{cls.name}.{fn.name}" if cls is not None else fn.name
+                    if isinstance(st, ast.Assign):
+                        guarded_init = any(isinstance(g, ast.If) and inb and norm(g.test) in (f"{v} is None",)
+                                           for g, inb in _enclosing_ifs(st, L))
+                        if not _mentions(st.value, v) and not guarded_init:
+                            res.findings.append(Finding(
+                                "R-ACCUM", f"{q} overwrites {v} :: {norm(st)[:80]}",
+                                f"{q}: `{v}` is initialised before the loop over `{norm(L.iter)[:40]}` and used after it, "
+                                f"but this iteration assigns it afresh (`{norm(st)[:60]}`): the contributions of earlier "
+                                f"iterations are lost", rel, st.lineno, q))
+                            continue
+                        term = None
+                        if isinstance(st.value, ast.Call) and isinstance(st.value.func, ast.Attribute) and \
+                                norm(st.value.func.value) == v and st.value.args:
+                            term = st.value.args[0]
+                        elif isinstance(st.value, ast.BinOp) and norm(st.value.left) == v:
+                            term = st.value.right
+                    else:
+                        term = st.value
+                    if term is not None and _mentions(term, v):
+                        res.findings.append(Finding(
+                            "R-ACCUM", f"{q} compounds {v} :: {norm(st)[:80]}",
+                            f"{q}: the term added to `{v}` in each iteration (`{norm(term)[:60]}`) contains `{v}` itself: "
+                            f"the loop compounds (doubles) instead of summing one contribution per iteration", rel,
+                            st.lineno, q))
+                    elif len(res.samples) < 6:
+                        res.samples.append({"function": q, "accumulator": v, "update": norm(st)[:70]})
+    res.floor = 12
+    return res
